@@ -239,7 +239,7 @@ def extra_cases(rng, tier):
         add("broadcast_to", "%s -> %s" % (sh, tgt), (lambda m, z, tgt=tgt: m.broadcast_to(z, tgt)), [R.iarr(rng, sh)], [0], True, modes=("rev",))
     hp = R.half_ints(rng, (2, 3))
     for dt in (int, "int64", bool, onp.int32, "uint8"):
-        add("astype", "to %s (piecewise constant)" % (dt if isinstance(dt, str) else dt.__name__), (lambda m, z, dt=dt: z.astype(dt) * 1.0 + 0.0 * z), [hp], [0], False, modes=("rev",))
+        add("astype", "to %s (piecewise constant)" % (dt if isinstance(dt, str) else dt.__name__), (lambda m, z, dt=dt: z.astype(dt) * 1.0 + 0.0 * z), [hp], [0], False)
     for dt in (float, "float32", complex):
         add("astype", "to %s" % (dt if isinstance(dt, str) else dt.__name__), (lambda m, z, dt=dt: z.astype(dt) * 2.0), [R.iarr(rng, (2, 3))], [0], True, modes=("rev",))
     i23b = R.iarr(rng, (2, 3))
@@ -257,8 +257,8 @@ def extra_cases(rng, tier):
     add("sum", "dtype=complex of a real x", (lambda m, z: m.sum(z, dtype=complex) * (1.0 + 2.0j)), [R.iarr(rng, (2, 3))], [0], True, modes=("rev",))
     add("sum", "dtype=complex axis=0 of a real x", (lambda m, z: m.sum(z, axis=0, dtype=complex) * (1.0 + 2.0j)), [R.iarr(rng, (2, 3))], [0], True, modes=("rev",))
     for dt in (int, bool, "int32"):
-        add("array", "array(x, dtype=%s) (piecewise constant)" % (dt if isinstance(dt, str) else dt.__name__), (lambda m, z, dt=dt: m.array(z, dtype=dt) * 1.0 + 0.0 * z), [R.half_ints(rng, (2, 3))], [0], False, modes=("rev",))
-        add("array", "array(x, %s) positional dtype" % (dt if isinstance(dt, str) else dt.__name__), (lambda m, z, dt=dt: m.array(z, dt) * z), [R.half_ints(rng, (2, 3))], [0], False, modes=("rev",))
+        add("array", "array(x, dtype=%s) (piecewise constant)" % (dt if isinstance(dt, str) else dt.__name__), (lambda m, z, dt=dt: m.array(z, dtype=dt) * 1.0 + 0.0 * z), [R.half_ints(rng, (2, 3))], [0], False)
+        add("array", "array(x, %s) positional dtype" % (dt if isinstance(dt, str) else dt.__name__), (lambda m, z, dt=dt: m.array(z, dt) * z), [R.half_ints(rng, (2, 3))], [0], False)
     # ---- (0k) magnitudes at which squares overflow / underflow (the rules must not square what NumPy does not) ----
     big, small = onp.array([3.0e200, -1.0e180, 2.5e160]), onp.array([3.0e-200, -1.0e-180, 2.5e-170])
     for mag, pts in (("huge", big), ("tiny", small)):
